@@ -91,6 +91,28 @@ def parity():
                      st.lists(mono, min_size=1, max_size=2), st.sampled_from([0, 0, 1, -1, 2, 3, 5]))
 
 
+def signed_sum():
+    """+-c1*a1 +- c2*a2 (+- c0): symbols and the positive constants with positive and negative coefficients -- the sign
+    bookkeeping of PositiveVisitor::bvisit(Add)"""
+    c = st.sampled_from([1, 1, 2, 3, -1, -1, -2, -3]).map(I_)
+    cq = st.one_of(c, c, st.builds(q, st.sampled_from([1, -1, 3, -5]), st.sampled_from([2, 3])))
+    a = st.one_of(sym(), sym(), sym(), st.sampled_from([PI, E_, ["constant", "GoldenRatio"], ["constant", "EulerGamma"]]))
+    t = st.builds(lambda k, x: x if k == I_(1) else ["mul", k, x], cq, a)
+    return st.builds(lambda ts, c0: ["add_vec", ["list"] + ts + ([c0] if c0 is not None else [])],
+                     st.lists(t, min_size=2, max_size=3), st.one_of(st.none(), st.none(), st.integers(-3, 3).filter(bool).map(I_), rat()))
+
+
+def int_shapes():
+    """integer-coefficient monomials with positive, negative and symbolic exponents, sums of them: is_integer / is_even /
+    is_odd on Mul, Add and Pow"""
+    e = st.sampled_from([1, 1, 1, 2, 3, -1, -2, -1]).map(I_)
+    f = st.builds(lambda b, ex: b if ex == I_(1) else ["pow", b, ex], sym(), st.one_of(e, e, e, sym()))
+    mono = st.builds(lambda k, fs: ["mul_vec", ["list"] + ([I_(k)] if k != 1 else []) + fs] if (k != 1 or len(fs) > 1) else fs[0],
+                     st.sampled_from([1, 1, 2, 3, -1, 4, 6]), st.lists(f, min_size=1, max_size=2))
+    return st.one_of(mono, mono, st.builds(lambda ms, c0: ["add_vec", ["list"] + ms + ([I_(c0)] if c0 else [])],
+                                           st.lists(mono, min_size=1, max_size=2), st.sampled_from([0, 1, -1, 2, 3])))
+
+
 def expression(tier):
     fun = st.sampled_from(FUN1 * 3 + FUN1_MORE)
     inner = st.one_of(atom(), atom(), linear(), product(), number(), parity())
@@ -104,7 +126,7 @@ def expression(tier):
                     binary=("add", "sub", "mul", "div"), max_leaves=6 if tier == "quick" else 9, special=special)
     return gen.weighted([
         (2, atom()), (1, number()),
-        (6, linear()), (5, product()), (3, parity()),
+        (6, linear()), (5, product()), (3, parity()), (4, signed_sum()), (3, int_shapes()),
         (4, call), (2, linear(st.one_of(atom(), call))), (2, product(st.one_of(atom(), call, linear()))),
         (2, st.builds(lambda f, a: [f, a], fun, call)),
         (4, tree),
